@@ -41,6 +41,8 @@ CONSTANTS
   EraseKinds,          \* subset of {"tellh","askh","ctl"}: type-erased wrappers a handle may be converted to
   DeadlockDetection,   \* BOOLEAN: feature deadlock-detection
   EdgeClearedOnReply,  \* BOOLEAN: wait-for edge removed when the reply is sent (F1 fixed)
+  AskerGuard,          \* BOOLEAN: the asking future removes its own wait-for edge when it completes or is dropped
+                       \* (FALSE = a deviation used to let TLC find distinguishing schedules: only the callee side clears)
   MetricsOn,           \* BOOLEAN: feature metrics (extra ActorRef clone during a handler)
   MaxRun,              \* bound on on_run invocations per actor (keeps the model finite)
   AvoidCycles,         \* BOOLEAN: hooks never issue an ask that would close a cycle (cycle-free programs)
@@ -177,7 +179,7 @@ Done(s, o, res, val) ==
       s1 == SetO(s, o, [ph |-> "done", res |-> res, val |-> val])
       s2 == IF op.own \in Clients THEN [s1 EXCEPT !.C[op.own] = 0]
             ELSE SetA(s1, op.own, [hop |-> 0])
-      s3 == IF op.kind \in AskKinds THEN ClearEdge(s2, op.own) ELSE s2
+      s3 == IF op.kind \in AskKinds /\ AskerGuard THEN ClearEdge(s2, op.own) ELSE s2
   IN R(s3, << OpEndEv(s, o, res, val) >>)
 
 DeadLetterEv(s, o, reason) ==
@@ -307,7 +309,7 @@ Finish(s, a, res, cyc) ==
       s2 == IF A.hop # 0 THEN SetO(Withdraw(s1, A.hop), A.hop, [ph |-> "dropped"]) ELSE s1
       s3 == SetA(s2, a, [pc |-> "Done", closed |-> TRUE, mbox |-> <<>>, cur |-> 0, own |-> FALSE,
                          marker |-> FALSE, hop |-> 0, term |-> FALSE, res |-> res])
-      s4a == ClearEdge(s3, a)
+      s4a == IF AskerGuard THEN ClearEdge(s3, a) ELSE s3
       \* destroying an unanswered request also releases its asker's edge (part of the F1 fix)
       askers == {s.O[o].own : o \in {x \in dropped : s.O[x].kind \in AskKinds /\ s.O[x].rep = "open"}}
       s4 == IF EdgeClearedOnReply
@@ -342,9 +344,10 @@ HExitEv(a, hook, m, out, v) == [e |-> "HExit", a |-> a, hook |-> hook, m |-> m, 
 \* reply value produced by the scripted handler: a function of the request and of actor state
 ReplyVal(m, n) == m * 100 + n
 
-PanicOut(s, a, hook, m) ==
+PanicOutAs(s, a, hook, m, out) ==
   LET r == Finish(s, a, ResPanic("scripted"), <<>>)
-  IN  R(r.s, << HExitEv(a, hook, m, "panic", 0) >> \o r.evs)
+  IN  R(r.s, << HExitEv(a, hook, m, out, 0) >> \o r.evs)
+PanicOut(s, a, hook, m) == PanicOutAs(s, a, hook, m, "panic")
 
 \* another select branch wins while on_run is parked: the on_run future is dropped, and with it a
 \* nested operation it was awaiting (cancelled ask: its wait-for edge goes away with the future)
@@ -352,7 +355,7 @@ DropRun(s, a) ==
   LET A == s.A[a]
       s1 == IF A.hop # 0
               THEN LET t == SetO(Withdraw(s, A.hop), A.hop, [ph |-> "dropped"])
-                   IN  SetA(IF s.O[A.hop].kind \in AskKinds THEN ClearEdge(t, a) ELSE t, a, [hop |-> 0])
+                   IN  SetA(IF s.O[A.hop].kind \in AskKinds /\ AskerGuard THEN ClearEdge(t, a) ELSE t, a, [hop |-> 0])
               ELSE s
   IN  R(s1, << [e |-> "RunDrop", a |-> a, inst |-> A.inst] >>)
 
@@ -382,7 +385,8 @@ ExitHook(s, a, dir) ==
                         \o (IF IsAsk(s, o) THEN <<>> ELSE << [e |-> "TellResult", a |-> a, m |-> m] >>)
             IN  Then(R(SetA(s1, a, [cur |-> 0, jl |-> Append(A.jl, "h"), mcount |-> A.mcount + 1]), evs),
                      LAMBDA t : SelectPart(t, a))
-       ELSE PanicOut(SetA(s, a, [mcount |-> A.mcount + 1]), a, "handler", m)   \* the metrics guard drops on unwind
+       \* "panic" / "slowpanic" (panics after holding the thread for a while); the metrics guard drops on unwind
+       ELSE PanicOutAs(SetA(s, a, [mcount |-> A.mcount + 1]), a, "handler", m, dir)
   ELSE IF A.pc = "Stop" THEN
        IF dir = "ok" THEN
             LET s1 == SetA(s, a, [jl |-> Append(A.jl, "stop")])
